@@ -40,6 +40,10 @@ func runC05(c *ctx) {
 		"a.$substringBefore($$.b.c.$substringBefore(\"z\"))", "items ~> $map(function($v){$v.id}) ~> $sum()", "items.id ~> $sum() ~> $string()",
 		"[1,2,3] ~> $append(4) ~> $count()", "(items ~> |$|{\"z\": 1}|).z", "$ ~> |items|{\"k\": k + 1}|", "items^(k).id", "items{s: $count($)}",
 		"($f := function($x){$x + 1}; 3 ~> $f() ~> $f())", "$string(n) ~> $length()", "b.c ~> $uppercase() ~> $substring(1, 2)", "s.$split(\",\")",
+		// chains into calls with 0..8 explicit arguments (the parsed argument slice has spare capacity for some lengths)
+		"a ~> $replace(\"a\", \"o\", 2)", "[1] ~> $zip([2], [3], [4])", "1 ~> function($a,$b,$c,$d){[$a,$b,$c,$d]}(2, 3, 4)", "1 ~> function($a,$b,$c,$d,$e,$f){[$a,$f]}(2, 3, 4, 5, 6)",
+		"1 ~> function($a,$b,$c,$d,$e,$f,$g){$g}(2, 3, 4, 5, 6, 7)", "1 ~> function($a,$b,$c,$d,$e,$f,$g,$h){[$a,$h]}(2, 3, 4, 5, 6, 7, 8)", "n ~> $formatNumber(\"#0.0\", {})",
+		"[1] ~> $zip([2], [3], [4], [5], [6])", "1 ~> function($a,$b,$c,$d,$e,$f,$g,$h,$i){$i}(2, 3, 4, 5, 6, 7, 8, 9)", "a ~> $substring(1, 2)", "a ~> $pad(9, \"-\")",
 		// bindings made outside any block live in the environment of one evaluation only
 		"[$prev, $prev := n]", "[$p1, $p1 := a, $p1]", "$top := n", "$exists($e1) ? \"leaked\" : ($e1 := 1)",
 		"[$count($acc), $acc := $append($acc, n)]", "$string($s1) & ($s1 := a)", "[$f1 ? $f1() : 0, $f1 := function(){n}]",
@@ -93,6 +97,11 @@ func runC05(c *ctx) {
 				// member order of objects is unspecified: compare as nested multisets
 				same = canonUnordered(normJSON(got.value)) == canonUnordered(normJSON(fresh.value))
 			}
+			if !same && inherentlyVaries(prog, d) {
+				c.rep.Skipped++
+				c.rep.SkipReasons["outcome depends on map iteration order (fresh evaluations differ among themselves)"]++
+				break
+			}
 			if !same {
 				c.disagree(Disagreement{Kind: "history-dependent-outcome", Prog: prog, Input: d, InputS: valueSexp(d), History: history,
 					Go: got.outcome, Model: "outcome of a fresh Expr on the same input: " + fresh.outcome})
@@ -105,6 +114,15 @@ func runC05(c *ctx) {
 			if a := nodeSexp(e.VerifNode()); a != ast0 {
 				c.disagree(Disagreement{Kind: "ast-changed", Prog: prog, Input: d, History: history, Go: trunc(a, 400), Model: trunc(ast0, 400)})
 				break
+			}
+			if h%2 == 1 && !strings.Contains(prog, "|") {
+				// the caller owns what Eval returned: writing into results must not reach later evaluations
+				// (a result may share structure with the input, so the input is restored from a copy)
+				keep := deepCopy(d)
+				scribble(got.value)
+				scribble(fresh.value)
+				restoreInto(d, keep)
+				history = append(history, "caller writes into the returned value")
 			}
 		}
 		if i%50 == 0 {
@@ -334,6 +352,7 @@ var c09Seeds = []string{
 	"[0..1e19]", "[1..1e300]", "[-1e19..5]", "[-9e18..9e18]", "[1e19..1e19]", "[-1e300..-1e300]", "[big..big]", "[0..big]", "[-big..big]", "$count([0..1e19])",
 	"1e308 + 1e308", "-1e308 - 1.7e308", "{\"t\": 1e308 + 1e308}", "[1.7e308 + 1.7e308]", "$sum([1e308]) + 1e308", "big + big", "-big - big", "{\"total\": $sum([big]) + big}",
 	"1e308 * 10", "1e308 / 1e-10", "5e-324 / 10", "1e308 % 0", "-(1e308 + 1e308)", "big * big", "big / (1 / big)", "$power(big, 2)", "$abs(-big) + big", "$max([big]) + $max([big])",
+	"$fromMillis(0, \"[ZZ]\", \"-1300\")", "$fromMillis(0, \"[ZZ]\", \"+1300\")", "$fromMillis(0, \"[zZ]\", \"-1400\")", "$fromMillis(0, \"[ZZ]\", \"-9900\")", "$fromMillis(0, \"[ZZ]\", \"+9959\")", "$now(\"[ZZ]\", \"-1300\")",
 	"$round(1.7976931348623157e308, -308)", "$round(1.5e308, -308)", "$round(-1.7e308, -307)", "$round(big, -308)", "{\"r\": $round(1.6e308, -308)}", "$round(9.5e307, -307)",
 	"null.a", "true.a", "1.a", "\"s\".a", "null[0]", "null[true]", "-null", "-\"a\"", "-[]", "[1] & [2]", "{} & {}", "$sum & 1", "1 in $sum", "$sum in [$sum]", "null in null",
 }
@@ -356,6 +375,12 @@ func runTotality(c *ctx, prop string) {
 		in := valueSexp(d)
 		c.note(prog+"\x00"+in, bucket, true)
 		c.rep.Outcomes[outcomeClass(res.outcome)]++
+		if res.panicV != nil && strings.Contains(prog, "$pad") && (strings.Contains(res.outcome, "Repeat") || strings.Contains(res.outcome, "makeslice") || strings.Contains(res.outcome, "out of memory")) {
+			// a padding width taken from the data (1e21): the property bounds the sizes of paddings
+			c.rep.Skipped++
+			c.rep.SkipReasons["$pad width beyond the property's size bound"]++
+			return
+		}
 		if res.panicV != nil || res.timeout {
 			if res.timeout {
 				timeouts++
@@ -373,8 +398,16 @@ func runTotality(c *ctx, prop string) {
 		}
 	}
 	seedDoc := map[string]interface{}{"x": []interface{}{10.0, 20.0, 30.0}, "idx": []interface{}{0.0, 2.0}, "arr": []interface{}{[]interface{}{1.0}},
-		"items": []interface{}{map[string]interface{}{"a": 2.0, "id": 0.0}, map[string]interface{}{"a": 1.0, "id": 1.0}}, "a": "xay", "b": map[string]interface{}{"c": 1.0}, "big": 1e308}
+		"items": []interface{}{map[string]interface{}{"a": 2.0, "id": 0.0}, map[string]interface{}{"a": 1.0, "id": 1.0}}, "a": "xay", "b": map[string]interface{}{"c": 1.0}, "big": 1e308,
+		"bigs": []interface{}{1e308, 1e308}, "negs": []interface{}{-1e308, -1.7e308}, "strs": []interface{}{"b", "a"}}
+	typedSeed := typedVariant(deepCopy(seedDoc))
+	for _, p := range []string{"$sum(bigs)", "$average(bigs)", "$sum(negs)", "$average(negs)", "$max(bigs)", "$min(negs)", "{\"s\": $sum(bigs)}", "[$average(negs)]", "$sum(bigs) - $sum(bigs)",
+		"$sum($append(bigs, negs))", "$sort(strs)", "$join(strs)", "$reverse(bigs)", "$distinct(bigs)", "$sum(x)", "$average(x)", "$max(x)", "$count(bigs)"} {
+		one(p, seedDoc, "seed")
+		one(p, typedSeed, "seed-typed")
+	}
 	for _, p := range c09Seeds {
+		one(p, typedSeed, "seed-typed")
 		one(p, seedDoc, "seed")
 		one(p, []interface{}{map[string]interface{}{"a": 2.0}, map[string]interface{}{"a": 1.0}}, "seed")
 	}
@@ -451,6 +484,11 @@ func c10Check(c *ctx, prog string, d interface{}, in string, res goResult) {
 		c.disagree(Disagreement{Kind: "marshal-fails", Prog: prog, Input: d, InputS: in, Go: "json.Marshal: " + err.Error(), Model: "marshals"})
 		return
 	}
+	if berr != nil && inherentlyVaries(prog, d) {
+		c.rep.Skipped++
+		c.rep.SkipReasons["outcome depends on map iteration order (fresh evaluations differ among themselves)"]++
+		return
+	}
 	if berr != nil {
 		c.disagree(Disagreement{Kind: "evalbytes-fails-where-eval-succeeds", Prog: prog, Input: d, InputS: in, Go: "EvalBytes: " + berr.Error(), Model: "Eval: " + trunc(res.outcome, 200)})
 		return
@@ -459,6 +497,11 @@ func c10Check(c *ctx, prog string, d interface{}, in string, res goResult) {
 		return
 	}
 	if !bytes.Equal(enc, viaBytes) && !jsonEquivalent(enc, viaBytes) && !(unorderedSensitive(prog) && jsonUnorderedEquivalent(enc, viaBytes)) {
+		if inherentlyVaries(prog, d) {
+			c.rep.Skipped++
+			c.rep.SkipReasons["outcome depends on map iteration order (fresh evaluations differ among themselves)"]++
+			return
+		}
 		c.disagree(Disagreement{Kind: "evalbytes-differs", Prog: prog, Input: d, InputS: in, Go: "EvalBytes: " + trunc(string(viaBytes), 200), Model: "encoding of Eval's value: " + trunc(string(enc), 200)})
 	}
 	// ErrUndefined iff the model has no value
@@ -499,4 +542,92 @@ func jsonEquivalent(a, b []byte) bool {
 		return false
 	}
 	return valueSexp(x) == valueSexp(y)
+}
+
+// scribble writes into every container of a value the caller received from Eval.
+func scribble(v interface{}) {
+	switch x := v.(type) {
+	case map[string]interface{}:
+		for _, e := range x {
+			scribble(e)
+		}
+		x["\x00scribbled"] = "by the caller"
+	case []interface{}:
+		for _, e := range x {
+			scribble(e)
+		}
+		if len(x) > 0 {
+			x[0] = "scribbled"
+		}
+	}
+}
+
+// restoreInto makes dst (the caller's input document) equal to src again, in place.
+func restoreInto(dst, src interface{}) {
+	switch d := dst.(type) {
+	case map[string]interface{}:
+		s, ok := src.(map[string]interface{})
+		if !ok {
+			return
+		}
+		for k := range d {
+			if _, ok := s[k]; !ok {
+				delete(d, k)
+			}
+		}
+		for k, v := range s {
+			switch v.(type) {
+			case map[string]interface{}, []interface{}:
+				if cur, ok := d[k]; ok && sameShape(cur, v) {
+					restoreInto(cur, v)
+					continue
+				}
+			}
+			d[k] = deepCopy(v)
+		}
+	case []interface{}:
+		s, ok := src.([]interface{})
+		if !ok || len(s) != len(d) {
+			return
+		}
+		for i, v := range s {
+			switch v.(type) {
+			case map[string]interface{}, []interface{}:
+				if sameShape(d[i], v) {
+					restoreInto(d[i], v)
+					continue
+				}
+			}
+			d[i] = deepCopy(v)
+		}
+	}
+}
+
+func sameShape(a, b interface{}) bool {
+	switch x := a.(type) {
+	case map[string]interface{}:
+		_, ok := b.(map[string]interface{})
+		return ok
+	case []interface{}:
+		y, ok := b.([]interface{})
+		return ok && len(x) == len(y)
+	}
+	return false
+}
+
+// inherentlyVaries: do fresh evaluations of the program on this input differ among themselves? Then the
+// outcome depends on Go's map iteration order (e.g. an element picked by position from the members of an
+// object: ($keys($))[0], **[1]) — sanctioned variation, not a witness against repeatability.
+func inherentlyVaries(prog string, d interface{}) bool {
+	if !unorderedSensitive(prog) {
+		return false
+	}
+	seen := map[string]bool{}
+	for i := 0; i < 96; i++ {
+		seen[goEval(prog, d).outcome] = true
+		if len(seen) > 1 {
+			return true
+		}
+	}
+	return false
 }
